@@ -14,7 +14,7 @@ VERUS = {
     #   (incl. "the smaller divides the larger and is > 2 words shorter", e.g. gcd_ext(2^320, 2^128), which panicked before
     #   the fix proposed_fixes/G1: residue buffer at least as long as the divisor); the annotated copy is the PATCHED code
     'int_gcd_ops': {'file': 'int_gcd_ops.rs', 'w32': True, 'rlimit': 60},   # gcd_ext_large uses 20-30M of the default 30M
-    # integer/src/root_ops.rs `mod repr` sqrt_rem_large (bookkeeping around the ASSUMED Karatsuba root::sqrt_rem): normalising
+    # integer/src/root_ops.rs `mod repr` sqrt_rem_large (bookkeeping around root::sqrt_rem, PROVED in unit int_root_sqrt and used via SIG): normalising
     # shift even and <= 2*BITS-2, shifted buffer exactly 2n words with top word >= B/4, un-normalisation of root and remainder:
     #   s*s <= value < (s+1)*(s+1);  !root_only ==> remainder == value - s*s
     'int_root_ops': {'file': 'int_root_ops.rs', 'w32': True, 'rlimit': 40},
@@ -92,18 +92,18 @@ PROP_UNITS = {
                           'ExtendedGcd::gcd_ext return g >= 1, g | a, g | b, s*a + t*b == g with |s| <= b, |t| <= a (|t| < a if '
                           'a > b > 0) -- proved for the u8 instance of the same macro body by the complete Kani harnesses '
                           'vk_base_gcd_gcd_ext_u8 and vk_gcdo_base_gcd_ext_bound_u8; to_sign_magnitude (Kani group int_primitive); '
-                          '<[T]>::fill; mul_dword_in_place (trusted contract, bounded Kani check in group int_mul)',
+                          '<[T]>::fill; mul_dword_in_place (proved in unit int_mul_dword)',
                           'int_gcd_ops ASSUMES (lib/gcdo_ops_stubs.rs, trusted): the Lehmer routines gcd::gcd_in_place / gcd_ext_in_place '
                           '(integer/src/gcd/lehmer.rs, NOT verified: g is the gcd, left in rhs[..g_len] resp. lhs/rhs by the flag; '
                           '|b| in lhs[..b_len] with a*lhs + (sign*|b|)*rhs == g for some a) -- a wrong sign or length returned by '
                           'lehmer.rs is therefore NOT detected; primitive Gcd::gcd / ExtendedGcd::gcd_ext for Word / DoubleWord '
                           '(u8 instance proved by Kani group base_gcd); cmp::cmp_in_place (numeric order of normalized words); '
-                          'mul::multiply (trusted contract); scratch memory (allocate_slice_copy / _fill; SIZING not verified); '
+                          'mul::multiply (proved in unit int_mul_dispatch); scratch memory (allocate_slice_copy / _fill; SIZING not verified); '
                           'lib/repr_stubs.rs (Buffer / Repr)',
                           'int_gcd_ops: gcd_ext_large_pre is a resource bound only (operand length + 1 < Buffer::MAX_CAPACITY); the three '
                           'forwarding Gcd impls (`self.as_ref().gcd(..)`) and the UBig/IBig-level macros (sign of the cofactors for IBig) are not '
                           'under contract',
-                          'int_root_ops ASSUMES (lib/gcdo_root_lemmas.rs, trusted): root::sqrt_rem (Karatsuba square root, root.rs) '
+                          'int_root_ops uses root::sqrt_rem (Karatsuba square root, root.rs) through the contract PROVED in unit int_root_sqrt; formerly assumed: '
                           'returns value(a) == s^2 + r, r <= 2s for a normalized 2n-word input -- only BOUNDED-checked by the Kani group '
                           'gcdo_root (4/6/8-word inputs, palette words); Repr::into_buffer (normalized words); scratch memory opaque; '
                           'the TypedReprRef::sqrt / sqrt_rem dispatch on `Small` values (primitive SquareRoot impls of dashu-base, Kani '
